@@ -70,10 +70,10 @@ def cmp(x,y):
             return c
         else:
             return cmparr(xv, yv)
-    if is_nan(x):
-        x = np.inf
-    if is_nan(y):
-        y = np.inf
+    xnan = isinstance(x, float) and x != x
+    ynan = isinstance(y, float) and y != y
+    if xnan or ynan: # nan is equal to nan and above every other float; +/-inf keep their native order
+        return 0 if (xnan and ynan) else 1 if xnan else -1
     if is_iterable(x):
         return cmparr(x,y)
     else:
